@@ -299,7 +299,15 @@ impl Ctx {
 
     /// Total number of cases for a sub-check (across all shards) → this shard's share.
     pub fn cases(&self, quick: u64, thorough: u64) -> u32 {
-        let total = if self.quick() { quick } else { thorough };
+        // Quick tiers of the cheap pure-function properties run a multiple of their nominal case counts
+        // (they stay in the seconds range); never more than the thorough count.
+        let scale = match self.id.as_str() {
+            "C07" | "C08" | "C21" | "C23" => 10,
+            "C17" | "C22" => 5,
+            "C03" | "C20" => 4,
+            _ => 1,
+        };
+        let total = if self.quick() { (quick * scale).min(thorough.max(quick)) } else { thorough };
         let base = total / self.nshards as u64;
         let extra = if (self.shard as u64) < total % self.nshards as u64 { 1 } else { 0 };
         (base + extra) as u32
